@@ -63,6 +63,12 @@ Definition hadamard (A B : mat) : mat := map2 (map2 Qmult) A B.
 Fixpoint dotr (u v : vec) : Q :=
   match u, v with a :: u', b :: v' => Qred (a * b + dotr u' v') | _, _ => 0 end.
 Definition mat_vec_r (A : mat) (x : vec) : vec := map (fun r => dotr r x) A.
+(* Lib.WLS.chi2 with reduction after every step (chi2r_correct: same value) *)
+Fixpoint chi2r (D : list obs) (x : vec) : Q :=
+  match D with
+  | [] => 0
+  | o :: D' => let '(r, w, y) := o in Qred (w * ((dotr r x - y) * (dotr r x - y)) + chi2r D' x)
+  end.
 Definition mat_mul_r (A B : mat) : mat := let Bt := transpose B in map (fun r => map (fun c => dotr r c) Bt) A.
 
 (* ------------------------------------------------------------------ Gauss-Jordan *)
